@@ -134,6 +134,10 @@ pub struct Seen {
     pub id: Option<u64>,
     pub report: bool,
     pub other: u32,
+    /// dimensions attached to the id metric (global dimensions merged in by a stream adapter)
+    pub dims: u32,
+    /// the entry carries the field that a `merge_globals` adapter adds
+    pub global_field: bool,
 }
 
 impl<'a> EntryWriter<'a> for Seen {
@@ -144,6 +148,7 @@ impl<'a> EntryWriter<'a> for Seen {
         match &name[..] {
             "id" => value.write(IdCapture(self)),
             "MetriqueValidationError" => self.report = true,
+            "verif_global" => self.global_field = true,
             _ => self.other += 1,
         }
     }
@@ -162,9 +167,10 @@ impl ValueWriter for IdCapture<'_> {
         self,
         distribution: impl IntoIterator<Item = Observation>,
         _unit: Unit,
-        _dimensions: impl IntoIterator<Item = (&'a str, &'a str)>,
+        dimensions: impl IntoIterator<Item = (&'a str, &'a str)>,
         _flags: MetricFlags<'_>,
     ) {
+        self.0.dims = dimensions.into_iter().count() as u32;
         if let Some(Observation::Unsigned(v)) = distribution.into_iter().next() {
             self.0.id = Some(v);
         }
@@ -297,6 +303,9 @@ pub struct RecStream {
     pub fail_all_from: u64,
     /// ... and stops applying at this entry ordinal (an outage that ends): later entries succeed again
     pub fail_all_until: u64,
+    /// what a stream adapter in front of this stream adds to every entry: (the global field, that many dimensions);
+    /// an entry that arrives without them is noted (`adapter_lost`)
+    pub expect_adapter: Option<(bool, u32)>,
     /// fault: the stream itself panics inside `next` for the entry with this ordinal (user code on the writer thread)
     pub panic_at_entry: Option<u64>,
     /// called inside every entry's `next` with the index of that call (a stream that itself uses
@@ -339,6 +348,7 @@ impl RecStream {
                 fail_all_from: 0,
                 fail_all_until: u64::MAX,
                 panic_at_entry: None,
+                expect_adapter: None,
                 on_entry_next: Callback::default(),
                 install_subscriber_at: None,
                 next_calls: 0,
@@ -415,6 +425,11 @@ impl EntryIoStream for RecStream {
         }
         if self.yields {
             detsim::yield_point();
+        }
+        if let (false, Some((field, dims))) = (seen.report, self.expect_adapter) {
+            if seen.global_field != field || seen.dims != dims {
+                self.ctl.hist.log(K::Note(format!("adapter_lost: stream {} got entry {:?} with global field: {} / {} dimensions, the adapters in front of it add field: {field} / {dims} dimensions", no, seen.id, seen.global_field, seen.dims)));
+            }
         }
         if !seen.report && self.panic_at_entry == Some(self.ctl.entry_nexts_done.load(Ordering::SeqCst)) {
             self.ctl.hist.log(K::Note(format!("stream_panicked:{}", self.ctl.stream_no)));
